@@ -39,7 +39,11 @@ def run(ctx):
     rep.guarded("tables", L, lambda: rule_tables(facts, rep))
     rep.guarded("scan", L, lambda: rule_scan(facts, rep))
     rep.guarded("distance", L + "distance", lambda: rule_distance(facts, rep))
-    for r, n in (("dispatch", 9), ("tables", 8), ("scan", 18), ("distance", 8)):
+    # the palette scan finds a slot index and names it through anstyle's index <-> 4-bit colour tables (Ansi256Color::into_ansi /
+    # from_ansi): a transposed entry there makes an exact palette colour map to another one
+    from rules import links
+    links.palette_tables(facts, rep)
+    for r, n in (("dispatch", 9), ("tables", 8), ("scan", 18), ("distance", 8), ("colour-tables", 3)):
         rep.floor(r, n)
 
 
